@@ -28,4 +28,34 @@ fn main() {
     let out = Path::new(&std::env::var("OUT_DIR").unwrap()).join("mods.rs");
     fs::write(out, s).unwrap();
     println!("cargo:rerun-if-changed=src");
+    probe_hooks();
+}
+
+/// Hook probes: `cargo:rustc-cfg=<cfg>` when the ddnnife sources this harness is built against
+/// contain the hook's entry point (so that a check can fall back when a hook is absent).
+/// (cfg name, file below <ddnnife>/src, needle)
+const HOOK_PROBES: &[(&str, &str, &str)] = &[
+    ("has_h3", "ddnnf/anomalies/config_creation.rs", "pub fn verif_set_sched_callback"),
+];
+
+fn probe_hooks() {
+    let manifest = Path::new(env!("CARGO_MANIFEST_DIR")).join("Cargo.toml");
+    println!("cargo:rerun-if-changed={}", manifest.display());
+    let text = fs::read_to_string(&manifest).unwrap_or_default();
+    // ddnnife = { path = "...", ... }
+    let dir = text
+        .lines()
+        .find(|l| l.trim_start().starts_with("ddnnife ") || l.trim_start().starts_with("ddnnife="))
+        .and_then(|l| l.split("path").nth(1))
+        .and_then(|r| r.split('"').nth(1))
+        .map(|p| p.to_string())
+        .unwrap_or_else(|| "/repo/ddnnife".to_string());
+    for (cfg, file, needle) in HOOK_PROBES {
+        println!("cargo:rustc-check-cfg=cfg({})", cfg);
+        let f = Path::new(&dir).join("src").join(file);
+        println!("cargo:rerun-if-changed={}", f.display());
+        if fs::read_to_string(&f).map(|t| t.contains(needle)).unwrap_or(false) {
+            println!("cargo:rustc-cfg={}", cfg);
+        }
+    }
 }
